@@ -16,6 +16,26 @@ use crate::metrics::MetricsCollector;
 #[cfg(feature = "metrics")]
 use std::sync::Arc;
 
+/// Drives a future to completion on the calling thread, parking the thread while it is pending.
+/// Works on any thread, with or without a Tokio runtime.
+fn block_on_parked<F: std::future::Future>(fut: F) -> F::Output {
+    struct Unpark(std::thread::Thread);
+    impl std::task::Wake for Unpark {
+        fn wake(self: std::sync::Arc<Self>) {
+            self.0.unpark();
+        }
+    }
+    let waker = std::task::Waker::from(std::sync::Arc::new(Unpark(std::thread::current())));
+    let mut cx = std::task::Context::from_waker(&waker);
+    let mut fut = std::pin::pin!(fut);
+    loop {
+        if let std::task::Poll::Ready(out) = fut.as_mut().poll(&mut cx) {
+            return out;
+        }
+        std::thread::park();
+    }
+}
+
 /// A type-safe reference to an actor of type `T`.
 ///
 /// `ActorRef<T>` provides type-safe message passing to actors, ensuring that only
@@ -700,7 +720,18 @@ impl<T: Actor> ActorRef<T> {
             }
         })?;
 
-        match reply_rx.blocking_recv() {
+        // As in `ask`: wait for the reply or for the mailbox to close, so that an envelope that
+        // landed in the mailbox of an actor that had just ended cannot block the caller forever.
+        let reply = block_on_parked(async {
+            let mut reply_rx = reply_rx;
+            tokio::select! {
+                biased;
+                reply = &mut reply_rx => reply.ok(),
+                _ = self.sender.closed() => reply_rx.try_recv().ok(),
+            }
+        });
+
+        match reply.ok_or(()) {
             Ok(reply_any) => {
                 // Successfully received reply from actor
                 match reply_any.downcast::<T::Reply>() {
